@@ -232,6 +232,8 @@ func findBit(bytes []byte, startIndex, endIndex, width int, searchBit, noEnd boo
 	} else {
 		endBit = endIndex * width
 	}
+	// the range ends with the last bit of the end unit (a byte index covers all 8 bits of that byte)
+	endBit += width - 1
 
 	// enforce boundaries
 	if startBit < 0 {
